@@ -106,14 +106,22 @@ inductive ChunkRes where
   | panic (why : String)
 deriving Repr, DecidableEq
 
-def slicerChunk (avg var : Int) : Nat → Int → Int → List Int → ChunkRes
+def maxInt64 : Int := 9223372036854775807
+
+/-- `g`: the guards of the repaired code (a range that cannot be split is returned as it is;
+the random offset is only drawn when `2·variation` fits an int; the split point is kept
+strictly inside the range).  `g = false` is the original recursion. -/
+def slicerChunk (g : Bool) (avg var : Int) : Nat → Int → Int → List Int → ChunkRes
   | 0, _, _, _ => .outOfFuel
   | fuel + 1, s, e, draws =>
-    if (e - s) - avg ≤ var then .ok [(s, e)] draws
+    -- `(end-start)-t.AverageSize` is int arithmetic: it wraps for an extremely negative
+    -- average (sizes are below 2^62)
+    let diff := if avg < -(4611686018427387904 : Int) then wrap64 ((e - s) - avg) else (e - s) - avg
+    if (g && e - s < 2) || diff ≤ var then .ok [(s, e)] draws
     else
       let mid0 := s + Int.tdiv (e - s) 2   -- Go `/` truncates toward zero
       let stepMid : Option (Int × List Int) :=
-        if var > 0 then
+        if var > 0 && (!g || var ≤ Int.tdiv maxInt64 2) then
           if wrap64 (var * 2) ≤ 0 then none
           else match draws with
             | d :: ds => some (mid0 + (d % wrap64 (var * 2)) - var, ds)
@@ -121,10 +129,11 @@ def slicerChunk (avg var : Int) : Nat → Int → Int → List Int → ChunkRes
         else some (mid0, draws)
       match stepMid with
       | none => .panic "rand.Intn: invalid argument"
-      | some (mid, ds) =>
-        match slicerChunk avg var fuel s mid ds with
+      | some (mid1, ds) =>
+        let mid := if g then (if mid1 ≤ s then s + 1 else if mid1 ≥ e then e - 1 else mid1) else mid1
+        match slicerChunk g avg var fuel s mid ds with
         | .ok l ds' =>
-          match slicerChunk avg var fuel mid e ds' with
+          match slicerChunk g avg var fuel mid e ds' with
           | .ok r ds'' => .ok (l ++ r) ds''
           | x => x
         | x => x
@@ -151,8 +160,11 @@ def slicerSend (rest : Bytes) (base : Int) (ts : Int) : List (Int × Int) → Pc
     | none => .crash "slice bounds out of range (slicer)"
 
 /-- bandwidth: the `for int64(len(p.Data)) > t.Rate*100` test and what follows. -/
-def bwLoop (rate : Int) (p : Chunk) (carry now : Int) : Pc :=
-  if (p.data.length : Int) > wrap64 (rate * 100) then .nap (now + 100 * ms) (.bwInstal p carry)
+def bwLoop (v : Variant) (rate : Int) (p : Chunk) (carry now : Int) : Pc :=
+  -- repaired code: only a non-negative rate whose 100 ms budget fits an int64 splits (rate 0:
+  -- empty instalments for ever — nothing passes, the stage stays interruptible)
+  let guardOK := match v with | .legacy => true | .fixed => decide (rate ≥ 0) && decide (rate ≤ Int.tdiv maxInt64 100)
+  if guardOK && decide ((p.data.length : Int) > wrap64 (rate * 100)) then .nap (now + 100 * ms) (.bwInstal p carry)
   else .nap (now + max carry 0) (.bwFinal p carry now)
 
 /-- First program counter of `Pipe` (entered at clock `now`). -/
@@ -168,8 +180,9 @@ def onChunk (v : Variant) (cfg : Cfg) (st : StubSt) (carry : Int) (c : Chunk) (n
   match cfg with
   | .noop => (st, .out c (.toIdle 0))
   | .latency l j =>
+    let guardOK := match v with | .legacy => true | .fixed => decide (j ≤ Int.tdiv maxInt64 2)
     let r : Option Int :=
-      if j > 0 then
+      if j > 0 && guardOK then
         (if wrap64 (j * 2) ≤ 0 then none
          else match draws with
            | d :: _ => some (l + (d % wrap64 (j * 2)) - j)
@@ -183,9 +196,9 @@ def onChunk (v : Variant) (cfg : Cfg) (st : StubSt) (carry : Int) (c : Chunk) (n
       (st, .nap (now + max sleep 0) (.latency c sleep delay))
   | .bandwidth rate =>
     let carry' := if rate ≤ 0 then 0 else carry + Int.tdiv ((c.data.length : Int) * ms) rate
-    (st, bwLoop rate c carry' now)
+    (st, bwLoop v rate c carry' now)
   | .slicer avg var _ =>
-    match slicerChunk avg var (slicerFuel c.data.length) 0 c.data.length draws with
+    match slicerChunk (v == .fixed) avg var (slicerFuel c.data.length) 0 c.data.length draws with
     | .ok offs _ => (st, slicerSend c.data 0 c.ts offs)
     | .outOfFuel => (st, .crash "stack overflow (slicer chunk recursion does not terminate)")
     | .panic w => (st, .crash w)
@@ -233,7 +246,7 @@ def step (v : Variant) (cfg : Cfg) (active : Bool) (st : StubSt) (pc : Pc) (ev :
         | _ => none)
      | .bwLoop p carry =>
        (match cfg with
-        | .bandwidth rate => some (st, bwLoop rate p carry now)
+        | .bandwidth rate => some (st, bwLoop v rate p carry now)
         | _ => none)
      | .limitAfter n =>
        (match cfg with
